@@ -89,7 +89,8 @@ def run_check(prop, tier, seed, replay=None, update_baseline=False):
     nproc = min(16, len(tasks), os.cpu_count() or 4)
     ctx = mp.get_context('spawn')
     out = {}
-    with cf.ProcessPoolExecutor(max_workers=nproc, mp_context=ctx) as pool:
+    # one process per task (max_tasks_per_child=1): a reused worker would accumulate the modules of earlier tasks
+    with cf.ProcessPoolExecutor(max_workers=nproc, mp_context=ctx, max_tasks_per_child=1) as pool:
         for key, results, meta, err in pool.map(_worker, [([owner.get(k, modnames[0])], k, budget) for k in tasks]):
             out[key] = (results, meta, err)
 
